@@ -1047,7 +1047,7 @@ fn shaped_query(kind: Shape, cfg: &QueryCfg) -> BoxedStrategy<Query> {
                 proptest::collection::vec((any::<u16>(), node_key), 1..=3),
                 any::<bool>(),
                 (w(cfg.p_distinct), w(cfg.p_order), any::<bool>(), prop_oneof![3 => Just(false), 1 => Just(true)]),
-                (w(cfg.p_skiplimit), proptest::option::weighted(0.4, 0u32..4), proptest::option::weighted(0.8, 0u32..6)),
+                (w(cfg.p_skiplimit), proptest::option::weighted(0.6, 0u32..4), proptest::option::weighted(0.7, 0u32..6)),
                 Just(node_names),
             )
         })
@@ -1079,9 +1079,11 @@ fn shaped_query(kind: Shape, cfg: &QueryCfg) -> BoxedStrategy<Query> {
                     let prop = Expr::Prop(focus.clone(), key.to_string());
                     q.ret = vec![match rsel {
                         0..45 => RetItem::Expr(prop),
-                        45..60 => RetItem::Expr(Expr::Id(focus.clone())),
-                        60..66 if !focus_is_edge => RetItem::Expr(Expr::Labels(focus.clone())),
-                        60..85 => {
+                        // returning the element itself keeps the traversal free of projections: filter steps are
+                        // then followed directly by dedup / skip / limit
+                        45..66 => RetItem::Expr(Expr::Id(focus.clone())),
+                        66..70 if !focus_is_edge => RetItem::Expr(Expr::Labels(focus.clone())),
+                        66..85 => {
                             let fns = agg_fns_for(key);
                             RetItem::Agg(fns[pick(asel, fns.len())], Some(prop))
                         }
